@@ -58,6 +58,21 @@ func TestMain(m *testing.M) {
 		}
 		return checkSigners(c)
 	})
+	reg("ecdsa_high_rx", func(raw json.RawMessage) error {
+		var c highRxCase
+		if err := json.Unmarshal(raw, &c); err != nil {
+			return err
+		}
+		return checkHighRx(c)
+	})
+	reg("ecdsa_lax_der", func(raw json.RawMessage) error {
+		var c laxCase
+		if err := json.Unmarshal(raw, &c); err != nil {
+			return err
+		}
+		_, err := checkLax(c)
+		return err
+	})
 	reg("concurrent", func(raw json.RawMessage) error {
 		var c concCase
 		if err := json.Unmarshal(raw, &c); err != nil {
